@@ -1,11 +1,1311 @@
-//! C12 — not implemented yet (stub).
-use crate::engine::Ctx;
-use serde_json::Value;
+//! C12 — converged equilibria do not depend on the initial guess or on continuation order.
+//!
+//! Parts (all sampled, every one a differential test "guided vs unguided / stand-alone"):
+//! * `pure-guess`      `PhaseEquilibrium::pure(T|p, Some(vle at T'))` vs `pure(T|p, None)`
+//! * `state-guess`     `State::new_npt` with `InitialDensity` / `Vapor` / `Liquid` vs `None` in
+//!                     single-root situations (harness scan of the isotherm); `new_nph`, `new_nps`,
+//!                     `new_nvu` with `initial_temperature`, `new_nts` with `InitialDensity`
+//! * `flash-guess`     `tp_flash` with the solution of a neighbouring (T, p) as initial state
+//! * `bubble-dew-guess` bubble / dew points with `tp_init` and `molefracs_init` within a factor 3
+//! * `diagram-pure`    every point of `PhaseDiagram::pure` equals the stand-alone solve (incl.
+//!                     points after failing neighbours; a point may not get lost)
+//! * `diagram-binary`  every point of `PhaseDiagram::binary_vle` equals the stand-alone bubble/dew
+//!                     point, and the diagram of the component-swapped model is its mirror image
+//! * `lines`           `bubble_point_line` / `dew_point_line` points vs stand-alone solves
+use super::c04::{
+    collapsed, critical, err_kind, gen_opt, pool_index, pure_spec, rec_name, tr_min, vle_vals, Crit, Opt, Vle, VleVals, DOMAIN_POOL,
+};
+use crate::engine::{Ctx, Gen, Obs, PanicPolicy, PartCfg};
+use crate::model::*;
+use feos::core::{
+    Contributions, DensityInitialization, PhaseDiagram, ReferenceSystem, Residual, SolverOptions, State,
+};
+use ndarray::{arr1, Array1};
+use quantity::*;
+use serde::{Deserialize, Serialize};
+use serde_json::{json, Value};
+use std::sync::{Arc, LazyLock, Mutex};
 
-pub fn run(_ctx: &Ctx) {
-    panic!("C12: check not implemented yet");
+// ---------------------------------------------------------------------------------------
+// Tolerances (reasons in `run`)
+// ---------------------------------------------------------------------------------------
+/// guided vs unguided: relative on T, p, densities; absolute on mole fractions and phase fraction
+/// (measured worst 7.6e-9 in 1.3e6 cases of the unchanged tree)
+pub const TOL: f64 = 2e-7;
+/// pure_t / pure_p stop on the pressure (temperature) update while the densities are one Newton
+/// step behind (C04 measured residuals up to 1e-8 of p): saturation pressures of two paths
+pub const TOL_PURE_P: f64 = 1e-6;
+/// tp_flash stops on |d ln K| < 1e-8 with linearly converging successive substitution
+pub const TOL_FLASH: f64 = 1e-5;
+
+// ---------------------------------------------------------------------------------------
+// Hydrocarbon PC-SAFT systems (no liquid-liquid demixing)
+// ---------------------------------------------------------------------------------------
+pub struct Hc {
+    pub file: &'static str,
+    pub rec: Value,
+    pub tc: f64,
 }
 
-pub fn replay(_ctx: &Ctx, _part: &str, _case: &Value) -> bool {
-    panic!("C12: check not implemented yet");
+/// Non-associating, non-polar PC-SAFT records whose SMILES contains only C and H
+/// (gross2001, loetgeringlin2018, esper2023), with the critical temperature of the model, sorted
+/// by file order (methane first).
+pub static HC_POOL: LazyLock<Vec<Hc>> = LazyLock::new(|| {
+    let mut v = vec![];
+    for (f, recs) in &POOLS.pcsaft {
+        if !["gross2001.json", "loetgeringlin2018.json", "esper2023.json"].contains(f) {
+            continue;
+        }
+        for r in recs {
+            let Some(sm) = r["identifier"]["smiles"].as_str() else { continue };
+            let only_ch = sm.chars().filter(|c| c.is_alphabetic()).all(|c| matches!(c, 'C' | 'c' | 'H'));
+            let mr = &r["model_record"];
+            let plain = ["kappa_ab", "epsilon_k_ab", "mu", "q", "na", "nb", "nc"].iter().all(|k| mr.get(*k).is_none());
+            if !only_ch || !plain || sm.is_empty() {
+                continue;
+            }
+            let spec = ModelSpec { family: Family::PcSaft, pure: vec![r.clone()], binary: vec![], seg: None, opts: Opts::default(), source: format!("shipped:{f}") };
+            let Ok(m) = spec.build() else { continue };
+            let Some(c) = critical(&spec, &m) else { continue };
+            v.push(Hc { file: f, rec: r.clone(), tc: c.t });
+        }
+    }
+    v
+});
+
+/// mixture of n hydrocarbons with T_c ratio < 1.8 (by construction), optional k_ij in +-0.05
+pub fn gen_hc_mixture(g: &mut Gen, n: usize) -> ModelSpec {
+    let pool = &*HC_POOL;
+    // half of the draws from gross2001 (the first 51 records), half from the whole pool
+    let n_g = pool.iter().filter(|h| h.file == "gross2001.json").count();
+    let pick = |g: &mut Gen, cand: &[usize]| -> usize {
+        let first: Vec<usize> = cand.iter().copied().filter(|&i| i < n_g).collect();
+        if !first.is_empty() && !g.bool(0.5) {
+            first[g.index(first.len())]
+        } else {
+            cand[g.index(cand.len())]
+        }
+    };
+    let all: Vec<usize> = (0..pool.len()).collect();
+    let mut idx = vec![pick(g, &all)];
+    while idx.len() < n {
+        let (lo, hi) = idx.iter().fold((f64::MAX, 0.0f64), |(lo, hi), &i| (lo.min(pool[i].tc), hi.max(pool[i].tc)));
+        let cand: Vec<usize> = all
+            .iter()
+            .copied()
+            .filter(|&j| !idx.contains(&j) && pool[j].tc.max(hi) / pool[j].tc.min(lo) < 1.8 && pool[j].rec["identifier"] != pool[idx[0]].rec["identifier"])
+            .collect();
+        idx.push(pick(g, &cand));
+    }
+    let mut binary = vec![];
+    for i in 0..n {
+        for j in i + 1..n {
+            if g.bool(0.5) {
+                binary.push((i, j, json!({"k_ij": g.range(-0.05, 0.05)})));
+            }
+        }
+    }
+    ModelSpec {
+        family: Family::PcSaft,
+        pure: idx.iter().map(|&i| pool[i].rec.clone()).collect(),
+        binary,
+        seg: None,
+        opts: Opts::default(),
+        source: "shipped:hydrocarbons".into(),
+    }
+}
+
+/// critical points of the pure components of a mixture spec
+pub fn pure_crits(spec: &ModelSpec) -> Option<Vec<Crit>> {
+    (0..spec.n())
+        .map(|i| {
+            let s = spec.subset(&[i]);
+            let m = s.build().ok()?;
+            critical(&s, &m)
+        })
+        .collect()
+}
+
+fn mix_classes(obs: &mut Obs, spec: &ModelSpec) {
+    obs.class(spec.label());
+    obs.class(format!("n={}", spec.n()));
+    obs.class(if spec.binary.is_empty() { "k_ij = 0" } else { "k_ij != 0" });
+}
+
+// ---------------------------------------------------------------------------------------
+// comparison of two equilibria
+// ---------------------------------------------------------------------------------------
+static WORST: LazyLock<Mutex<std::collections::BTreeMap<String, f64>>> = LazyLock::new(|| Mutex::new(Default::default()));
+fn see(k: &str, x: f64) {
+    if x.is_finite() {
+        let mut m = WORST.lock().unwrap();
+        let e = m.entry(k.to_string()).or_insert(0.0);
+        if x > *e {
+            *e = x;
+        }
+    }
+}
+
+fn rel(a: f64, b: f64) -> f64 {
+    (a - b).abs() / a.abs().max(b.abs()).max(f64::MIN_POSITIVE)
+}
+
+/// conditioning of a phase density with respect to the pressure: d ln rho / d ln p = p / (rho dp/drho)
+fn kappa<E: Residual>(s: &State<E>) -> f64 {
+    let p = s.pressure(Contributions::Total).to_reduced().abs();
+    let d = s.density.to_reduced() * s.dp_drho(Contributions::Total).to_reduced();
+    if d > 0.0 {
+        (p / d).clamp(1.0, 1e4)
+    } else {
+        1e4
+    }
+}
+
+/// a and b are the same equilibrium: T, p, phase densities relative, compositions absolute.
+/// `swap`: b belongs to the model with the two components exchanged.
+/// `tol_p`: tolerance of p (the quantity the solvers iterate on); a density follows p with the
+/// factor kappa = p / (rho dp/drho) (1 for an ideal gas, << 1 for a liquid, -> infinity at the
+/// critical point): its tolerance is tol_p * max(1, kappa).
+#[allow(clippy::too_many_arguments)]
+fn same_vle(obs: &mut Obs, tag: &str, what: &str, a: &Vle, b: &Vle, tol: f64, tol_p: f64, swap: bool) {
+    let (va, vb) = (vle_vals(a), vle_vals(b));
+    let tol_v = tol_p * kappa(a.vapor()).max(kappa(b.vapor()));
+    let tol_l = tol_p * kappa(a.liquid()).max(kappa(b.liquid()));
+    see(&format!("{tag}: T"), rel(va.t, vb.t) / tol);
+    see(&format!("{tag}: p"), rel(va.p, vb.p) / tol_p);
+    see(&format!("{tag}: rho_v"), rel(va.rho_v, vb.rho_v) / tol_v);
+    see(&format!("{tag}: rho_l"), rel(va.rho_l, vb.rho_l) / tol_l);
+    obs.close(&format!("{what}: T"), va.t, vb.t, tol, 0.0);
+    obs.close(&format!("{what}: p"), va.p, vb.p, tol_p, 0.0);
+    obs.close(&format!("{what}: vapor density"), va.rho_v, vb.rho_v, tol_v, 0.0);
+    obs.close(&format!("{what}: liquid density"), va.rho_l, vb.rho_l, tol_l, 0.0);
+    let n = a.vapor().molefracs.len();
+    if n > 1 {
+        for i in 0..n {
+            let j = if swap { n - 1 - i } else { i };
+            see(&format!("{tag}: y"), (a.vapor().molefracs[i] - b.vapor().molefracs[j]).abs() / tol_p);
+            see(&format!("{tag}: x"), (a.liquid().molefracs[i] - b.liquid().molefracs[j]).abs() / tol_p);
+            obs.close(&format!("{what}: y[{i}]"), a.vapor().molefracs[i], b.vapor().molefracs[j], 0.0, tol_p);
+            obs.close(&format!("{what}: x[{i}]"), a.liquid().molefracs[i], b.liquid().molefracs[j], 0.0, tol_p);
+        }
+    }
+}
+
+/// C04/pure-collapsed-solution: one of the two results is a collapsed pair -> the difference is
+/// that finding, not a new one. Returns true if handled.
+fn collapsed_pair(obs: &mut Obs, what: &str, a: &VleVals, b: &VleVals) -> bool {
+    if collapsed(a) || collapsed(b) {
+        obs.class("a result is a collapsed pair (C04 finding)");
+        obs.known_or_fail(
+            "C04/pure-collapsed-solution",
+            format!("{what}: a pure equilibrium returned as Ok is two copies of one phase: rho {:e}/{:e} vs rho {:e}/{:e}", a.rho_v, a.rho_l, b.rho_v, b.rho_l),
+        );
+        return true;
+    }
+    false
+}
+
+/// the two phases of a mixture result are copies of each other
+fn copy_like(v: &Vle) -> bool {
+    let n = v.vapor().molefracs.len();
+    // (the critical end state of a diagram is built from one state twice: bitwise identical
+    // phases are that construction, not a solver result)
+    if v.vapor().density == v.liquid().density && (0..n).all(|i| v.vapor().molefracs[i] == v.liquid().molefracs[i]) {
+        return false;
+    }
+    let dx = (0..n).map(|i| (v.vapor().molefracs[i] - v.liquid().molefracs[i]).abs()).fold(0.0, f64::max);
+    dx < 1e-3 && (v.liquid().density.to_reduced() / v.vapor().density.to_reduced() - 1.0).abs() < 1e-2
+}
+
+/// Comparison of two mixture equilibria that should be the same point.
+/// * a result whose phases are copies of each other is the known finding
+///   C12/bubble-dew-near-trivial-solution (signature: `copy_like`);
+/// * the isofugacity equations with one specified phase composition have two solutions below
+///   the cricondenbar (the specified phase is the liquid: bubble point; it is the vapor: dew
+///   point). Results with opposite density order are different equilibria, not one equilibrium
+///   computed inaccurately: counted as inconclusive;
+/// * `unique == false` (a super-critical component: closed p-x loop; pressure-specified dew
+///   points: retrograde branch): results further apart than 5 % in p or 0.5 % in T are on
+///   different branches: inconclusive.
+/// Returns true if the comparison was made.
+#[allow(clippy::too_many_arguments)]
+fn cmp_mix(obs: &mut Obs, tag: &str, what: &str, a: &Vle, b: &Vle, tol: f64, swap: bool, unique: bool) -> bool {
+    if copy_like(a) || copy_like(b) {
+        obs.class("a mixture result is a pair of copies");
+        let (va, vb) = (vle_vals(a), vle_vals(b));
+        obs.known_or_fail(
+            "C12/bubble-dew-near-trivial-solution",
+            format!(
+                "{what}: a bubble/dew point returned as Ok consists of two copies of one phase: p {:e}, rho {:e}/{:e}, y {} x {} vs p {:e}, rho {:e}/{:e}, y {} x {}",
+                va.p,
+                va.rho_v,
+                va.rho_l,
+                a.vapor().molefracs,
+                a.liquid().molefracs,
+                vb.p,
+                vb.rho_v,
+                vb.rho_l,
+                b.vapor().molefracs,
+                b.liquid().molefracs
+            ),
+        );
+        return false;
+    }
+    let (va, vb) = (vle_vals(a), vle_vals(b));
+    // C12/bubble-dew-pressure-runaway: a result in the ideal-gas limit (p < 1e-40 in reduced
+    // units with both densities vanishing) or two results whose pressures differ by more than a
+    // factor 1000 although every guess is within a factor 3 of the solution
+    let runaway = |v: &VleVals| v.p < 1e-40 && v.rho_l < 1e-40;
+    if runaway(&va) || runaway(&vb) || !((va.p / vb.p).ln().abs() < 1e3f64.ln()) {
+        obs.class("a mixture result ran away in pressure");
+        obs.known_or_fail(
+            "C12/bubble-dew-pressure-runaway",
+            format!("{what}: a bubble/dew point returned as Ok sits at p = {:e} (the other call: {:e}); densities {:e}/{:e} vs {:e}/{:e}", va.p, vb.p, va.rho_v, va.rho_l, vb.rho_v, vb.rho_l),
+        );
+        return false;
+    }
+    if (va.rho_v < va.rho_l) != (vb.rho_v < vb.rho_l) {
+        obs.inconclusive(format!("{tag}: the two calls converge to different equilibria (bubble/dew exchange: opposite density order)"));
+        return false;
+    }
+    if !unique && (rel(va.p, vb.p) > 0.05 || rel(va.t, vb.t) > 5e-3) {
+        obs.inconclusive(format!("{tag}: the two calls converge to different branches of a closed / retrograde envelope"));
+        return false;
+    }
+    same_vle(obs, tag, what, a, b, tol, tol, swap);
+    true
+}
+
+// ---------------------------------------------------------------------------------------
+// Part A: pure(T|p, Some(previous equilibrium))
+// ---------------------------------------------------------------------------------------
+#[derive(Serialize, Deserialize, Clone, Debug)]
+pub struct PCase {
+    pub spec: ModelSpec,
+    pub tr: f64,
+    /// (T' - T) / Tc of the equilibrium used as guess, |dtr| <= 0.3
+    pub dtr: f64,
+    pub opt: Opt,
+    pub pspec: bool,
+}
+
+fn decode_pure(g: &mut Gen) -> PCase {
+    let spec = pure_spec(&DOMAIN_POOL[pool_index(g)]);
+    let lo = tr_min(&spec);
+    let tr = g.range(lo, 0.99);
+    let tr2 = (tr + g.range(-0.3, 0.3)).clamp(lo, 0.99);
+    PCase { spec, tr, dtr: tr2 - tr, opt: gen_opt(g), pspec: g.bool(0.4) }
+}
+
+fn check_pure(case: &PCase, obs: &mut Obs) {
+    let spec = &case.spec;
+    obs.class(spec.label());
+    obs.class(if case.pspec { "p-specification" } else { "T-specification" });
+    obs.class(if case.opt.is_default() { "options:default" } else { "options:non-default" });
+    let Ok(model) = spec.build() else {
+        obs.discard("build");
+        return;
+    };
+    let Some(c) = critical(spec, &model) else {
+        obs.discard("no critical point");
+        return;
+    };
+    let t = case.tr * c.t * KELVIN;
+    let t2 = (case.tr + case.dtr) * c.t * KELVIN;
+    let o = case.opt.solver();
+    // the guess: a converged equilibrium at T' (default options)
+    let Ok(guess) = Vle::pure(&model, t2, None, SolverOptions::default()) else {
+        obs.discard("no equilibrium at T' for the guess");
+        return;
+    };
+    if collapsed(&vle_vals(&guess)) {
+        obs.discard("guess is a collapsed pair (C04 finding)");
+        return;
+    }
+    let (unguided, guided, what) = if case.pspec {
+        // the pressure is the saturation pressure at T (from the unguided T-solve)
+        let Ok(ut) = Vle::pure(&model, t, None, SolverOptions::default()) else {
+            obs.discard("no equilibrium at T");
+            return;
+        };
+        if collapsed(&vle_vals(&ut)) {
+            obs.discard("T-solve is a collapsed pair (C04 finding)");
+            return;
+        }
+        let p = ut.vapor().pressure(Contributions::Total);
+        (Vle::pure(&model, p, None, o), Vle::pure(&model, p, Some(&guess), o), "pure(p, guess) vs pure(p)")
+    } else {
+        (Vle::pure(&model, t, None, o), Vle::pure(&model, t, Some(&guess), o), "pure(T, guess) vs pure(T)")
+    };
+    obs.class(format!("unguided:{} guided:{}", if unguided.is_ok() { "Ok" } else { "Err" }, if guided.is_ok() { "Ok" } else { "Err" }));
+    if let Err(e) = &guided {
+        obs.class(format!("guided Err:{}", err_kind(e)));
+    }
+    let (Ok(u), Ok(gd)) = (unguided, guided) else { return };
+    if !case.pspec {
+        obs.ensure(gd.vapor().temperature == t && gd.liquid().temperature == t, || {
+            format!("guided pure(T): result at T = {} / {} instead of the specified {}", gd.vapor().temperature, gd.liquid().temperature, t)
+        });
+    }
+    let (vu, vg) = (vle_vals(&u), vle_vals(&gd));
+    if collapsed_pair(obs, what, &vu, &vg) {
+        return;
+    }
+    let f = (1e5 * case.opt.tol.unwrap_or(0.0) / TOL_PURE_P).max(1.0);
+    // Known finding C12/pure-guess-swapped-phases. Signature: the guided result is the unguided
+    // equilibrium with vapor() and liquid() exchanged.
+    if vg.rho_v > vg.rho_l && rel(vg.rho_v, vu.rho_l) < TOL_PURE_P * f && rel(vg.rho_l, vu.rho_v) < TOL_PURE_P * f {
+        obs.class("guided result has vapor and liquid exchanged");
+        obs.known_or_fail(
+            "C12/pure-guess-swapped-phases",
+            format!(
+                "{what}: the guided call returns the same equilibrium with the phases exchanged: vapor().density = {:e} > liquid().density = {:e} (unguided {:e} / {:e}); T/Tc = {}, guess from T'/Tc = {}",
+                vg.rho_v,
+                vg.rho_l,
+                vu.rho_v,
+                vu.rho_l,
+                case.tr,
+                case.tr + case.dtr
+            ),
+        );
+        return;
+    }
+    same_vle(obs, "pure-guess", what, &gd, &u, TOL * f, TOL_PURE_P * f, false);
+    // non-trivial: the guess differs from the solution by more than 10 % (in pressure)
+    let vq = vle_vals(&guess);
+    if rel(vq.p, vu.p) > 0.1 {
+        obs.nontrivial();
+        obs.class("guess differs > 10 % in p");
+    } else {
+        obs.class("guess within 10 % in p");
+    }
+}
+
+// ---------------------------------------------------------------------------------------
+// Part B: state constructors
+// ---------------------------------------------------------------------------------------
+#[derive(Serialize, Deserialize, Clone, Debug)]
+pub struct GCase {
+    pub spec: ModelSpec,
+    pub x: Vec<f64>,
+    /// T / max pure T_c
+    pub tau: f64,
+    /// packing-fraction-like position of the target state on the isotherm: rho / rho_max
+    pub f_rho: f64,
+    /// factor applied to the solution to make the guess (density or temperature)
+    pub factor: f64,
+    /// selects the coefficients of the ideal-gas heat capacity for the caloric constructors
+    pub ig: Vec<usize>,
+}
+
+fn decode_state(g: &mut Gen) -> GCase {
+    let n = 1 + g.index(2);
+    let spec = gen_hc_mixture(g, n);
+    let x = g.simplex(n, 0.02);
+    let tau = g.range(0.5, 2.0);
+    let f_rho = if g.bool(0.5) { g.log_range(1e-4, 0.1) } else { g.range(0.1, 0.85) };
+    let factor = g.log_range(1.0 / 3.0, 3.0);
+    let ig = (0..n).map(|_| g.index(POOLS.dippr.len())).collect();
+    GCase { spec, x, tau, f_rho, factor, ig }
+}
+
+/// number of density roots of p(rho) = p on the isotherm (grid of 600 densities up to rho_max
+/// plus the two densities rho0 (1 -+ 1e-6) next to the target, so that a narrow overshoot of the
+/// isotherm right behind the target cannot hide two roots), and whether any grid point is
+/// mechanically unstable
+fn count_roots(model: &Arc<Model>, t: Temperature, moles: &Moles<Array1<f64>>, p: f64, rho_max: f64, rho0: f64) -> Option<(usize, bool)> {
+    let n = moles.sum();
+    let m = 600;
+    let mut grid: Vec<f64> = (0..=m)
+        .map(|k| {
+            // geometric below 1e-2 rho_max, linear above
+            let u = k as f64 / m as f64;
+            if u < 0.3 {
+                rho_max * 1e-7f64.powf(1.0 - u / 0.3) * 1e-2f64.powf(u / 0.3)
+            } else {
+                rho_max * (1e-2 + (u - 0.3) / 0.7 * 0.99)
+            }
+        })
+        .collect();
+    grid.push(rho0 * (1.0 - 1e-6));
+    grid.push(rho0 * (1.0 + 1e-6));
+    grid.sort_by(|a, b| a.partial_cmp(b).unwrap());
+    let mut prev: Option<f64> = None;
+    let mut roots = 0;
+    let mut unstable = false;
+    for rho in grid {
+        let s = State::new_nvt(model, t, n / Density::from_reduced(rho), moles).ok()?;
+        let pk = s.pressure(Contributions::Total).to_reduced() - p;
+        if !pk.is_finite() {
+            return None;
+        }
+        if s.dp_drho(Contributions::Total).to_reduced() <= 0.0 {
+            unstable = true;
+        }
+        if let Some(pp) = prev {
+            if (pp < 0.0) != (pk < 0.0) {
+                roots += 1;
+            }
+        }
+        prev = Some(pk);
+    }
+    Some((roots, unstable))
+}
+
+fn check_state(case: &GCase, obs: &mut Obs) {
+    let spec = &case.spec;
+    mix_classes(obs, spec);
+    let Ok(model) = spec.build() else {
+        obs.discard("build");
+        return;
+    };
+    let Some(cr) = pure_crits(spec) else {
+        obs.discard("no critical point");
+        return;
+    };
+    let tc_max = cr.iter().map(|c| c.t).fold(0.0, f64::max);
+    let t = case.tau * tc_max * KELVIN;
+    let moles = Moles::from_reduced(Array1::from_vec(case.x.clone()));
+    let Ok(rho_max) = model.max_density(Some(&moles)) else {
+        obs.discard("max_density");
+        return;
+    };
+    let rho_max = rho_max.to_reduced();
+    let rho0 = case.f_rho * rho_max;
+    let Ok(target) = State::new_nvt(&model, t, moles.sum() / Density::from_reduced(rho0), &moles) else {
+        obs.discard("target state");
+        return;
+    };
+    let p = target.pressure(Contributions::Total).to_reduced();
+    // density iteration resolves the pressure to 1e-12 (reduced) absolutely: keep p >= 1e-4 (~1.4 bar)
+    if !(p >= 1e-4) || target.dp_drho(Contributions::Total).to_reduced() <= 0.0 {
+        obs.discard("target pressure below 1e-4 or target mechanically unstable");
+        return;
+    }
+    let Some((roots, unstable)) = count_roots(&model, t, &moles, p, rho_max, rho0) else {
+        obs.discard("isotherm scan failed");
+        return;
+    };
+    obs.class(format!("roots on the isotherm: {}", roots.min(3)));
+    if roots != 1 {
+        obs.class("several density roots: excluded by the quantifier");
+        return;
+    }
+    obs.class(if case.tau > 1.0 { "supercritical isotherm" } else if unstable { "sub-critical, one root (p outside the loop)" } else { "sub-critical, monotone isotherm" });
+    let pq = Pressure::from_reduced(p);
+    let run = |init: DensityInitialization| State::new_npt(&model, t, pq, &moles, init);
+    let base = run(DensityInitialization::None);
+    let guess_rho = (rho0 * case.factor).min(0.98 * rho_max);
+    let variants = [
+        ("InitialDensity", run(DensityInitialization::InitialDensity(Density::from_reduced(guess_rho)))),
+        ("Vapor", run(DensityInitialization::Vapor)),
+        ("Liquid", run(DensityInitialization::Liquid)),
+    ];
+    let mut compared = 0;
+    if let Ok(b) = &base {
+        // the unguided result is the single root
+        let rb = b.density.to_reduced();
+        see("state-guess: None vs target", rel(rb, rho0) / TOL);
+        obs.close("new_npt(None): density of the single root", rb, rho0, TOL, 0.0);
+        for (name, r) in &variants {
+            match r {
+                Ok(s) => {
+                    // Known finding C12/density-iteration-unconverged-ok. Signature: the returned
+                    // state misses the specified pressure by more than 1e-9 relative (a converged
+                    // density iteration meets it to 1e-12 absolute).
+                    let perr = rel(s.pressure(Contributions::Total).to_reduced(), p);
+                    if perr > 1e-9 {
+                        obs.class(format!("{name}: returned state misses the specified pressure"));
+                        obs.known_or_fail(
+                            "C12/density-iteration-unconverged-ok",
+                            format!("new_npt({name}) returns Ok at rho = {:e} where p = {:e} instead of the specified {:e} (relative error {:e}); single root at {:e}", s.density.to_reduced(), s.pressure(Contributions::Total).to_reduced(), p, perr, rho0),
+                        );
+                        continue;
+                    }
+                    compared += 1;
+                    obs.class(format!("{name}:Ok"));
+                    see("state-guess: density", rel(s.density.to_reduced(), rb) / TOL);
+                    obs.close(&format!("new_npt({name}) vs new_npt(None): density"), s.density.to_reduced(), rb, TOL, 0.0);
+                    obs.ensure(s.temperature == t, || format!("new_npt({name}): temperature {} instead of {}", s.temperature, t));
+                }
+                Err(_) => obs.class(format!("{name}:Err")),
+            }
+        }
+    } else {
+        obs.class("new_npt(None):Err");
+    }
+    // caloric constructors with an initial temperature (pure components, p above p_c: one root in T)
+    if spec.n() == 1 && p > 1.05 * cr[0].p {
+        // an ideal-gas heat capacity that is positive at every temperature (c_p = a + b T, J/mol/K):
+        // shipped DIPPR polynomials turn negative far above their range, which gives u(T), h(T),
+        // s(T) a second root
+        let k = case.ig.first().copied().unwrap_or(0);
+        if let Ok(igm) = joback_model(&[[20.0 + 10.0 * (k % 7) as f64, 0.05 + 0.01 * (k % 5) as f64, 0.0, 0.0, 0.0]]) {
+            let eos = full_model(igm, model.clone());
+            if let Ok(s0) = State::new_nvt(&eos, t, target.volume, &moles) {
+                let t0 = t.to_reduced();
+                let h = s0.molar_enthalpy(Contributions::Total);
+                let sm = s0.molar_entropy(Contributions::Total);
+                let u = s0.molar_internal_energy(Contributions::Total);
+                let ti = Some(t * case.factor.clamp(0.6, 1.6));
+                let dens = DensityInitialization::None;
+                let pairs: Vec<(&str, Result<State<FullModel>, _>, Result<State<FullModel>, _>)> = vec![
+                    ("new_nph", State::new_nph(&eos, pq, h, &moles, dens, ti), State::new_nph(&eos, pq, h, &moles, dens, None)),
+                    ("new_nps", State::new_nps(&eos, pq, sm, &moles, dens, ti), State::new_nps(&eos, pq, sm, &moles, dens, None)),
+                    ("new_nvu", State::new_nvu(&eos, target.volume, u, &moles, ti), State::new_nvu(&eos, target.volume, u, &moles, None)),
+                ];
+                for (name, a, b) in pairs {
+                    obs.class(format!("{name}: guided {} / default {}", if a.is_ok() { "Ok" } else { "Err" }, if b.is_ok() { "Ok" } else { "Err" }));
+                    for (which, r) in [("initial_temperature", &a), ("default start", &b)] {
+                        if let Ok(s) = r {
+                            compared += 1;
+                            see("state-guess: T", rel(s.temperature.to_reduced(), t0) / TOL);
+                            see("state-guess: rho(T-iteration)", rel(s.density.to_reduced(), rho0) / (10.0 * TOL));
+                            obs.close(&format!("{name} ({which}): temperature of the single root"), s.temperature.to_reduced(), t0, TOL, 0.0);
+                            obs.close(&format!("{name} ({which}): density"), s.density.to_reduced(), rho0, 10.0 * TOL, 0.0);
+                        }
+                    }
+                }
+                // entropy at fixed T is monotone in rho (dp/dT > 0 checked): one density root
+                if s0.dp_dt(Contributions::Total).to_reduced() > 0.0 && case.tau > 1.0 {
+                    let g1 = State::new_nts(&eos, t, sm, &moles, DensityInitialization::InitialDensity(Density::from_reduced(guess_rho)));
+                    obs.class(format!("new_nts: {}", if g1.is_ok() { "Ok" } else { "Err" }));
+                    if let Ok(s) = g1 {
+                        compared += 1;
+                        see("state-guess: rho(nts)", rel(s.density.to_reduced(), rho0) / (2.5 * TOL));
+                        obs.close("new_nts(InitialDensity): density of the single root", s.density.to_reduced(), rho0, 2.5 * TOL, 0.0);
+                    }
+                }
+            }
+        }
+    }
+    if compared > 0 && (case.factor > 1.1 || case.factor < 1.0 / 1.1) {
+        obs.nontrivial();
+    }
+}
+
+// ---------------------------------------------------------------------------------------
+// mixtures: options
+// ---------------------------------------------------------------------------------------
+#[derive(Serialize, Deserialize, Clone, Copy, Debug, PartialEq)]
+pub struct BdOpt {
+    pub inner_iter: Option<usize>,
+    pub outer_iter: Option<usize>,
+    pub outer_tol: Option<f64>,
+}
+
+impl BdOpt {
+    pub const DEFAULT: BdOpt = BdOpt { inner_iter: None, outer_iter: None, outer_tol: None };
+    fn solver(&self) -> (SolverOptions, SolverOptions) {
+        let mut i = SolverOptions::default();
+        let mut o = SolverOptions::default();
+        if let Some(m) = self.inner_iter {
+            i = i.max_iter(m);
+        }
+        if let Some(m) = self.outer_iter {
+            o = o.max_iter(m);
+        }
+        if let Some(t) = self.outer_tol {
+            o = o.tol(t);
+        }
+        (i, o)
+    }
+    fn factor(&self) -> f64 {
+        (100.0 * self.outer_tol.unwrap_or(0.0) / TOL).max(1.0)
+    }
+}
+
+/// `tight`: also small iteration limits, which make some solves fail (failing neighbours)
+fn gen_bdopt(g: &mut Gen, tight: bool) -> BdOpt {
+    let inner_iter = if g.bool(0.3) { Some(g.int(2, 10) as usize) } else { None };
+    let outer_iter = if g.bool(0.4) { Some(if tight { g.int(4, 40) } else { g.int(50, 400) } as usize) } else { None };
+    let outer_tol = if g.bool(0.3) { Some(g.log_range(1e-12, 1e-9)) } else { None };
+    BdOpt { inner_iter, outer_iter, outer_tol }
+}
+
+/// temperature of a mixture case: tr x the lowest pure critical temperature, but not below half
+/// of the highest one (below ~0.45 T_c the pure PC-SAFT models have spurious dense phases, so a
+/// mixture with such a component is not free of liquid-liquid demixing)
+fn t_low(cr: &[Crit], tr: f64) -> Temperature {
+    let lo = cr.iter().map(|c| c.t).fold(f64::MAX, f64::min);
+    let hi = cr.iter().map(|c| c.t).fold(0.0, f64::max);
+    (tr * lo).max(0.5 * hi) * KELVIN
+}
+
+// ---------------------------------------------------------------------------------------
+// Part C: tp_flash with a neighbouring solution
+// ---------------------------------------------------------------------------------------
+#[derive(Serialize, Deserialize, Clone, Debug)]
+pub struct FCase {
+    pub spec: ModelSpec,
+    pub z: Vec<f64>,
+    pub tr: f64,
+    /// p = p_dew + theta (p_bub - p_dew)
+    pub theta: f64,
+    /// neighbour: T' = T (1 + dt), p' = p (1 + dp)
+    pub dt: f64,
+    pub dp: f64,
+    pub opt: Opt,
+}
+
+fn decode_flash(g: &mut Gen) -> FCase {
+    let n = 2 + g.index(2);
+    let spec = gen_hc_mixture(g, n);
+    let z = g.simplex(n, 0.05);
+    let tr = g.range(0.6, 0.95);
+    let theta = g.range(0.1, 0.9);
+    let dt = g.range(-0.03, 0.03);
+    let dp = g.range(-0.15, 0.15);
+    let max_iter = if g.bool(0.3) { Some(g.int(50, 400) as usize) } else { None };
+    let tol = if g.bool(0.4) { Some(g.log_range(1e-10, 1e-7)) } else { None };
+    FCase { spec, z, tr, theta, dt, dp, opt: Opt { max_iter, tol } }
+}
+
+fn check_flash(case: &FCase, obs: &mut Obs) {
+    let spec = &case.spec;
+    mix_classes(obs, spec);
+    let Ok(model) = spec.build() else {
+        obs.discard("build");
+        return;
+    };
+    let Some(cr) = pure_crits(spec) else {
+        obs.discard("no critical point");
+        return;
+    };
+    let t = t_low(&cr, case.tr);
+    let z = Array1::from_vec(case.z.clone());
+    let feed = Moles::from_reduced(z.clone());
+    let d = (SolverOptions::default(), SolverOptions::default());
+    let (Ok(bub), Ok(dew)) = (Vle::bubble_point(&model, t, &z, None, None, d), Vle::dew_point(&model, t, &z, None, None, d)) else {
+        obs.discard("no bubble or dew point at T");
+        return;
+    };
+    let (pb, pd) = (vle_vals(&bub).p, vle_vals(&dew).p);
+    if !(pb / pd > 1.05) {
+        obs.discard("envelope narrower than 5 % (near-azeotropic / near-pure): outside C05's flash domain");
+        return;
+    }
+    let p = Pressure::from_reduced(pd + case.theta * (pb - pd));
+    let o = case.opt.solver();
+    let unguided = Vle::tp_flash(&model, t, p, &feed, None, o, None);
+    // neighbouring solution
+    let (t2, p2) = (t * (1.0 + case.dt), p * (1.0 + case.dp));
+    let Ok(nb) = Vle::tp_flash(&model, t2, p2, &feed, None, SolverOptions::default(), None) else {
+        obs.discard("no two-phase solution at the neighbouring (T', p')");
+        return;
+    };
+    let guided = Vle::tp_flash(&model, t, p, &feed, Some(&nb), o, None);
+    obs.class(format!("unguided:{} guided:{}", if unguided.is_ok() { "Ok" } else { "Err" }, if guided.is_ok() { "Ok" } else { "Err" }));
+    let (Ok(u), Ok(gd)) = (unguided, guided) else { return };
+    // the guided result sits at the specified T and p
+    obs.ensure(gd.vapor().temperature == t && gd.liquid().temperature == t, || {
+        format!("guided tp_flash: phases at T = {} / {} instead of {}", gd.vapor().temperature, gd.liquid().temperature, t)
+    });
+    let pr = p.to_reduced();
+    obs.close("guided tp_flash: vapor at the specified pressure", gd.vapor().pressure(Contributions::Total).to_reduced(), pr, TOL, 0.0);
+    obs.close("guided tp_flash: liquid at the specified pressure", gd.liquid().pressure(Contributions::Total).to_reduced(), pr, TOL, 1e-10);
+    let f = (case.opt.tol.unwrap_or(1e-8) / 1e-8).max(1.0);
+    // T and p are specifications (exact); densities and compositions carry the K-factor error
+    let (va, vb) = (vle_vals(&gd), vle_vals(&u));
+    // one call returns a vapor-liquid split, the other a split into two liquid-like phases: the
+    // system has liquid-liquid demixing at this (T, p) (stable or metastable), which the
+    // quantifier excludes (asymmetric alkane mixtures with k_ij ~ 0.05 do this in PC-SAFT)
+    let ll = |v: &VleVals| v.rho_v > 0.5 * v.rho_l;
+    if ll(&va) != ll(&vb) {
+        obs.class("liquid-liquid split found by one call: system outside the quantifier");
+        obs.inconclusive("flash-guess: one call returns a liquid-liquid split (system with liquid-liquid demixing)");
+        return;
+    }
+    see("flash-guess: rho_v", rel(va.rho_v, vb.rho_v) / (TOL_FLASH * f));
+    see("flash-guess: rho_l", rel(va.rho_l, vb.rho_l) / (TOL_FLASH * f));
+    obs.close("tp_flash(guess) vs tp_flash: vapor density", va.rho_v, vb.rho_v, TOL_FLASH * f, 0.0);
+    obs.close("tp_flash(guess) vs tp_flash: liquid density", va.rho_l, vb.rho_l, TOL_FLASH * f, 0.0);
+    for i in 0..spec.n() {
+        see("flash-guess: y", (gd.vapor().molefracs[i] - u.vapor().molefracs[i]).abs() / (TOL_FLASH * f));
+        see("flash-guess: x", (gd.liquid().molefracs[i] - u.liquid().molefracs[i]).abs() / (TOL_FLASH * f));
+        obs.close(&format!("tp_flash(guess) vs tp_flash: y[{i}]"), gd.vapor().molefracs[i], u.vapor().molefracs[i], 0.0, TOL_FLASH * f);
+        obs.close(&format!("tp_flash(guess) vs tp_flash: x[{i}]"), gd.liquid().molefracs[i], u.liquid().molefracs[i], 0.0, TOL_FLASH * f);
+    }
+    let beta = |v: &Vle| (v.vapor().total_moles / (v.vapor().total_moles + v.liquid().total_moles)).into_value();
+    let (bg, bu) = (beta(&gd), beta(&u));
+    // the phase fraction is ill-conditioned when y ~ x: scale with 1 / |y - x|
+    let sep = (0..spec.n()).map(|i| (u.vapor().molefracs[i] - u.liquid().molefracs[i]).abs()).fold(0.0, f64::max);
+    see("flash-guess: beta", (bg - bu).abs() * sep / (TOL_FLASH * f));
+    obs.close("tp_flash(guess) vs tp_flash: vapor fraction", bg, bu, 0.0, TOL_FLASH * f / sep.max(1e-3));
+    obs.class(if bu > 0.02 && bu < 0.98 { "beta in (0.02, 0.98)" } else { "beta near 0 or 1" });
+    let far = rel(vle_vals(&nb).rho_v, vb.rho_v) > 0.1 || (beta(&nb) - bu).abs() > 0.1;
+    if far && bu > 0.02 && bu < 0.98 {
+        obs.nontrivial();
+    }
+    obs.class(if far { "guess differs > 10 %" } else { "guess within 10 %" });
+}
+
+// ---------------------------------------------------------------------------------------
+// Part D: bubble / dew points with tp_init and molefracs_init
+// ---------------------------------------------------------------------------------------
+#[derive(Serialize, Deserialize, Clone, Debug)]
+pub struct BCase {
+    pub spec: ModelSpec,
+    pub x: Vec<f64>,
+    pub tr: f64,
+    pub bubble: bool,
+    pub pspec: bool,
+    /// factor on the solution pressure (T-spec) / relative shifts of the solution temperature (p-spec)
+    pub f_tp: f64,
+    pub f_tp2: f64,
+    /// factors on the incipient-phase mole fractions (empty: no composition guess)
+    pub f_x: Vec<f64>,
+    pub opt: BdOpt,
+}
+
+fn decode_bd(g: &mut Gen) -> BCase {
+    let n = 2 + g.index(2);
+    let spec = gen_hc_mixture(g, n);
+    let x = g.simplex(n, 0.02);
+    let tr = g.range(0.6, 0.95);
+    let bubble = !g.bool(0.5);
+    let pspec = g.bool(0.35);
+    let f_tp = g.log_range(1.0 / 3.0, 3.0);
+    let f_tp2 = g.log_range(1.0 / 3.0, 3.0);
+    let f_x = if g.bool(0.6) { (0..n).map(|_| g.log_range(1.0 / 3.0, 3.0)).collect() } else { vec![] };
+    BCase { spec, x, tr, bubble, pspec, f_tp, f_tp2, f_x, opt: gen_bdopt(g, false) }
+}
+
+fn bd(model: &Arc<Model>, bubble: bool, t: Option<Temperature>, p: Option<Pressure>, x: &Array1<f64>, y: Option<&Array1<f64>>, o: (SolverOptions, SolverOptions), t_spec: bool) -> Result<Vle, feos::core::EosError> {
+    match (bubble, t_spec) {
+        (true, true) => Vle::bubble_point(model, t.unwrap(), x, p, y, o),
+        (false, true) => Vle::dew_point(model, t.unwrap(), x, p, y, o),
+        (true, false) => Vle::bubble_point(model, p.unwrap(), x, t, y, o),
+        (false, false) => Vle::dew_point(model, p.unwrap(), x, t, y, o),
+    }
+}
+
+fn incipient(v: &Vle, bubble: bool) -> Array1<f64> {
+    if bubble {
+        v.vapor().molefracs.clone()
+    } else {
+        v.liquid().molefracs.clone()
+    }
+}
+
+fn check_bd(case: &BCase, obs: &mut Obs) {
+    let spec = &case.spec;
+    mix_classes(obs, spec);
+    obs.class(format!("{} {}", if case.bubble { "bubble" } else { "dew" }, if case.pspec { "p-spec" } else { "T-spec" }));
+    obs.class(if case.opt == BdOpt::DEFAULT { "options:default" } else { "options:non-default" });
+    let Ok(model) = spec.build() else {
+        obs.discard("build");
+        return;
+    };
+    let Some(cr) = pure_crits(spec) else {
+        obs.discard("no critical point");
+        return;
+    };
+    let t = t_low(&cr, case.tr);
+    let x = Array1::from_vec(case.x.clone());
+    let o = case.opt.solver();
+    let tol = TOL * case.opt.factor();
+    // unguided T-specification (the only specification that has an unguided form)
+    let unguided = bd(&model, case.bubble, Some(t), None, &x, None, o, true);
+    let Ok(u) = unguided else {
+        obs.class("unguided:Err");
+        return;
+    };
+    let vu = vle_vals(&u);
+    let y_sol = incipient(&u, case.bubble);
+    let y_init = (!case.f_x.is_empty()).then(|| {
+        let mut y: Array1<f64> = Array1::from_iter(y_sol.iter().zip(&case.f_x).map(|(a, f)| a * f));
+        let s = y.sum();
+        y.mapv_inplace(|v| v / s);
+        y
+    });
+    obs.class(if y_init.is_some() { "with molefracs_init" } else { "without molefracs_init" });
+    let far_x = y_init.as_ref().map_or(false, |y| y.iter().zip(y_sol.iter()).any(|(a, b)| (a - b).abs() > 0.1 * b));
+    if !case.pspec {
+        let p_init = Pressure::from_reduced(vu.p * case.f_tp);
+        let guided = bd(&model, case.bubble, Some(t), Some(p_init), &x, y_init.as_ref(), o, true);
+        match guided {
+            Err(e) => obs.class(format!("guided:Err:{}", err_kind(&e))),
+            Ok(gd) => {
+                obs.class("guided:Ok");
+                obs.ensure(gd.vapor().temperature == t && gd.liquid().temperature == t, || format!("guided result at T = {} instead of {}", gd.vapor().temperature, t));
+                let done = cmp_mix(obs, "bubble-dew-guess (T)", "bubble/dew point with tp_init + molefracs_init vs without", &gd, &u, tol, false, true);
+                if done && ((case.f_tp - 1.0).abs() > 0.1 || far_x) {
+                    obs.nontrivial();
+                }
+            }
+        }
+    } else {
+        // p-specification: an initial temperature is mandatory; two different guesses must agree
+        // with each other and invert the T-specification
+        let p = Pressure::from_reduced(vu.p);
+        let shift = |f: f64| t * (1.0 + 0.1 * f.ln() / 3f64.ln()); // factor in [1/3, 3] -> +-10 % in T
+        let a = bd(&model, case.bubble, Some(shift(case.f_tp)), Some(p), &x, y_init.as_ref(), o, false);
+        let b = bd(&model, case.bubble, Some(shift(case.f_tp2)), Some(p), &x, None, o, false);
+        obs.class(format!("p-spec guesses: {} / {}", if a.is_ok() { "Ok" } else { "Err" }, if b.is_ok() { "Ok" } else { "Err" }));
+        for (name, r) in [("first guess", &a), ("second guess", &b)] {
+            if let Ok(v) = r {
+                cmp_mix(obs, "bubble-dew-guess (p)", &format!("bubble/dew point at p with t_init ({name}) vs the T-specified point"), v, &u, 10.0 * tol, false, false);
+            }
+        }
+        if let (Ok(a), Ok(b)) = (&a, &b) {
+            let done = cmp_mix(obs, "bubble-dew-guess (p, two guesses)", "bubble/dew point at p: two initial temperatures", a, b, tol, false, false);
+            if done && ((case.f_tp / case.f_tp2).ln().abs() > 0.3 || far_x) {
+                obs.nontrivial();
+            }
+        }
+    }
+}
+
+// ---------------------------------------------------------------------------------------
+// Part E: PhaseDiagram::pure vs stand-alone solves
+// ---------------------------------------------------------------------------------------
+#[derive(Serialize, Deserialize, Clone, Debug)]
+pub struct DCase {
+    pub spec: ModelSpec,
+    pub npoints: usize,
+    pub tmin_r: f64,
+    pub opt: Opt,
+}
+
+/// records with many failing temperatures on the unchanged tree (C04 findings): failing neighbours
+const FAILURE_PRONE: [(&str, &str); 6] = [
+    ("aasen2019_fh2.json", "helium"),
+    ("lafitte2013.json", "toluene"),
+    ("esper2023.json", "p-nitroaniline"),
+    ("esper2023.json", "2,3-dimethylbenzo[b]thiophene"),
+    ("esper2023.json", "2-methyl-1-hexanol"),
+    ("esper2023.json", "2-methylhexanoic acid"),
+];
+
+fn decode_dpure(g: &mut Gen) -> DCase {
+    let prone = g.bool(0.25);
+    let spec = if prone {
+        let (f, n) = FAILURE_PRONE[g.index(FAILURE_PRONE.len())];
+        pure_spec(DOMAIN_POOL.iter().find(|p| p.file == f && rec_name(&p.rec) == n).unwrap_or(&DOMAIN_POOL[0]))
+    } else {
+        pure_spec(&DOMAIN_POOL[pool_index(g)])
+    };
+    let npoints = if g.bool(0.5) { g.int(13, 120) as usize } else { g.int(3, 12) as usize };
+    // also below the range of the success clause: low temperatures fail for some records
+    let tmin_r = g.range(0.3, 0.9);
+    let max_iter = if g.bool(0.4) { Some(g.int(3, 60) as usize) } else { None };
+    let tol = if g.bool(0.3) { Some(g.log_range(1e-13, 1e-9)) } else { None };
+    DCase { spec, npoints, tmin_r, opt: Opt { max_iter, tol } }
+}
+
+fn check_dpure(case: &DCase, obs: &mut Obs) {
+    let spec = &case.spec;
+    obs.class(spec.label());
+    let n = case.npoints;
+    obs.class(if n <= 12 { "npoints 3-12" } else { "npoints 13-120" });
+    obs.class(if case.opt.is_default() { "options:default" } else { "options:non-default" });
+    let Ok(model) = spec.build() else {
+        obs.discard("build");
+        return;
+    };
+    let Some(c) = critical(spec, &model) else {
+        obs.discard("no critical point");
+        return;
+    };
+    let tmin = case.tmin_r * c.t * KELVIN;
+    let o = case.opt.solver();
+    // (the genuine critical temperature as initial value where the default start is spurious, C04 finding)
+    let Ok(dia) = PhaseDiagram::pure(&model, tmin, n, c.init.map(|t| t * KELVIN), o) else {
+        obs.discard("PhaseDiagram::pure Err");
+        return;
+    };
+    let tmax = tmin + (c.t * KELVIN - tmin) * ((n - 2) as f64 / (n - 1) as f64);
+    let grid = Temperature::linspace(tmin, tmax, n - 1);
+    let sub = &dia.states[..dia.states.len().saturating_sub(1)];
+    let mut k = 0usize;
+    let mut compared = 0;
+    let mut prev_present = true;
+    let f = (1e5 * case.opt.tol.unwrap_or(0.0) / TOL_PURE_P).max(1.0);
+    for i in 0..n - 1 {
+        let ti = grid.get(i);
+        let present = k < sub.len() && rel(sub[k].vapor().temperature.to_reduced(), ti.to_reduced()) < 1e-12;
+        let alone = Vle::pure(&model, ti, None, o);
+        match (present, &alone) {
+            (true, Ok(a)) => {
+                let d = &sub[k];
+                let (vd, va) = (vle_vals(d), vle_vals(a));
+                if !collapsed_pair(obs, &format!("diagram point {i}"), &vd, &va) {
+                    // beyond 0.99 T_c the densities react to the pressure criterion with
+                    // 1/(dp/drho) -> infinity: ten times the tolerance (as in C04)
+                    let f = if ti.to_reduced() > 0.99 * c.t { 10.0 * f } else { f };
+                    same_vle(obs, if ti.to_reduced() > 0.99 * c.t { "diagram-pure (T > 0.99 Tc)" } else { "diagram-pure" }, &format!("PhaseDiagram::pure point {i} of {n} vs stand-alone pure(T)"), d, a, TOL * f, TOL_PURE_P * f, false);
+                    compared += 1;
+                    if i >= 1 {
+                        obs.nontrivial();
+                    }
+                    if !prev_present {
+                        obs.class("point after a failing neighbour compared");
+                    }
+                }
+            }
+            (false, Ok(a)) => {
+                // the continuation falls back to exactly the stand-alone cascade: a point that the
+                // stand-alone solve finds may not get lost because of its neighbours
+                if !collapsed(&vle_vals(a)) {
+                    obs.fail(format!(
+                        "PhaseDiagram::pure lost point {i} of {n} (T = {ti}): the stand-alone solve at that temperature succeeds (previous point {})",
+                        if prev_present { "present" } else { "failed" }
+                    ));
+                }
+            }
+            (true, Err(_)) => obs.class("guided point found where the stand-alone solve fails"),
+            (false, Err(_)) => obs.class("point fails in both"),
+        }
+        if present {
+            k += 1;
+        }
+        prev_present = present;
+    }
+    obs.ensure(k == sub.len(), || format!("diagram contains {} sub-critical states that are not grid temperatures", sub.len() - k));
+    if compared == 0 {
+        obs.class("nothing to compare");
+    }
+}
+
+// ---------------------------------------------------------------------------------------
+// Part F: PhaseDiagram::binary_vle vs stand-alone, and mirrored component order
+// ---------------------------------------------------------------------------------------
+#[derive(Serialize, Deserialize, Clone, Debug)]
+pub struct VCase {
+    pub spec: ModelSpec,
+    pub tr: f64,
+    pub pspec: bool,
+    pub npoints: usize,
+    pub opt: BdOpt,
+}
+
+fn decode_binary(g: &mut Gen) -> VCase {
+    let spec = gen_hc_mixture(g, 2);
+    // up to 1.25 x the lower T_c: one component may be super-critical
+    let tr = g.range(0.6, 1.25);
+    let pspec = g.bool(0.3);
+    let npoints = if g.bool(0.5) { g.int(13, 40) as usize } else { g.int(3, 12) as usize };
+    VCase { spec, tr, pspec, npoints, opt: gen_bdopt(g, true) }
+}
+
+fn binary_diagram(model: &Arc<Model>, t: Temperature, p: Option<Pressure>, n: usize, o: (SolverOptions, SolverOptions)) -> Result<PhaseDiagram<Model, 2>, feos::core::EosError> {
+    match p {
+        None => PhaseDiagram::binary_vle(model, t, Some(n), None, o),
+        Some(p) => PhaseDiagram::binary_vle(model, p, Some(n), None, o),
+    }
+}
+
+fn check_binary(case: &VCase, obs: &mut Obs) {
+    let spec = &case.spec;
+    mix_classes(obs, spec);
+    obs.class(if case.pspec { "p-specification" } else { "T-specification" });
+    obs.class(if case.opt == BdOpt::DEFAULT { "options:default" } else { "options:non-default" });
+    let n = case.npoints;
+    obs.class(if n <= 12 { "npoints 3-12" } else { "npoints 13-40" });
+    let Ok(model) = spec.build() else {
+        obs.discard("build");
+        return;
+    };
+    let Some(cr) = pure_crits(spec) else {
+        obs.discard("no critical point");
+        return;
+    };
+    let t = t_low(&cr, case.tr);
+    let o = case.opt.solver();
+    let tol = TOL * case.opt.factor();
+    // p-specification: a pressure between the two vapor pressures at T (needs both sub-critical)
+    let p = if case.pspec {
+        let sat = Vle::vapor_pressure(&model, t);
+        match (sat[0], sat[1]) {
+            (Some(a), Some(b)) => Some(Pressure::from_reduced(0.5 * (a.to_reduced() + b.to_reduced()))),
+            _ => {
+                obs.discard("p-specification needs both vapor pressures");
+                return;
+            }
+        }
+    } else {
+        None
+    };
+    // which end points exist is decided by the library's own pure-component solves
+    let both_sub = match p {
+        None => Vle::vle_pure_comps(&model, t).iter().all(|v| v.is_some()),
+        Some(p) => Vle::vle_pure_comps(&model, p).iter().all(|v| v.is_some()),
+    };
+    obs.class(if both_sub { "both pure end points exist" } else { "a component is super-critical: diagram ends in the critical point" });
+    let dia = match binary_diagram(&model, t, p, n, o) {
+        Ok(d) => d,
+        Err(e) => {
+            obs.class(format!("binary_vle:Err:{}", err_kind(&e)));
+            return;
+        }
+    };
+    let states = &dia.states;
+    if states.len() < 3 {
+        obs.class("fewer than 3 states");
+        return;
+    }
+    // with a p-specification and a super-critical component the vapor composition is specified
+    let t_of = |v: &Vle| v.vapor().temperature;
+    let dew = p.is_some() && (Vle::boiling_temperature(&model, p.unwrap()).iter().any(|b| b.is_none()));
+    let mut compared = 0;
+    let mut gaps = 0;
+    // grid spacing of the specified composition, to recognise failed neighbours
+    let xs: Vec<f64> = states.iter().map(|s| if dew { s.vapor().molefracs[0] } else { s.liquid().molefracs[0] }).collect();
+    let dx_min = xs.windows(2).map(|w| (w[1] - w[0]).abs()).filter(|d| *d > 1e-12).fold(f64::MAX, f64::min);
+    for k in 1..states.len() - 1 {
+        let s = &states[k];
+        let xk = if dew { s.vapor().molefracs.clone() } else { s.liquid().molefracs.clone() };
+        if xk.iter().any(|&v| v <= 0.0 || v >= 1.0) {
+            continue;
+        }
+        let after_gap = (xs[k] - xs[k - 1]).abs() > 1.5 * dx_min;
+        if after_gap {
+            gaps += 1;
+        }
+        let alone = match p {
+            None => bd(&model, !dew, Some(t), None, &xk, None, o, true),
+            // p-specification: an initial temperature is mandatory; 2 % off the diagram's value
+            Some(p) => bd(&model, !dew, Some(t_of(s) * if k % 2 == 0 { 1.02 } else { 0.98 }), Some(p), &xk, None, o, false),
+        };
+        match alone {
+            Ok(a) => {
+                if cmp_mix(obs, "diagram-binary", &format!("binary_vle state {k} of {} vs stand-alone point", states.len()), s, &a, tol, false, both_sub && p.is_none()) {
+                    compared += 1;
+                    if after_gap {
+                        obs.class("point after a failing neighbour compared");
+                    }
+                }
+            }
+            Err(_) => obs.class("stand-alone point fails where the diagram has a state"),
+        }
+    }
+    if gaps > 0 {
+        obs.class("diagram with failed points");
+    }
+    obs.class(if states.len() == n { "all points present" } else { "points missing" });
+    // mirrored component order: reversed traversal
+    let perm = spec.permuted(&[1, 0]);
+    if let Ok(m2) = perm.build() {
+        match binary_diagram(&m2, t, p, n, o) {
+            Ok(d2) => {
+                let s2 = &d2.states;
+                obs.class(if s2.len() == states.len() { "mirror: same number of states" } else { "mirror: different number of states" });
+                // match by the specified composition (a failed point may be missing on one side only)
+                let mut matched = 0;
+                for a in states.iter() {
+                    let xa = if dew { a.vapor().molefracs[0] } else { a.liquid().molefracs[0] };
+                    if let Some(b) = s2.iter().find(|b| ((if dew { b.vapor().molefracs[1] } else { b.liquid().molefracs[1] }) - xa).abs() < 1e-9) {
+                        if cmp_mix(obs, "diagram-binary mirror", "binary_vle vs the diagram of the component-swapped model", a, b, tol, true, both_sub && p.is_none()) {
+                            matched += 1;
+                        }
+                    }
+                }
+                if matched >= 3 {
+                    obs.class("mirror compared");
+                }
+                // traversal direction: the first state of one is the last state of the other
+                if s2.len() == states.len() && !dew && both_sub {
+                    let (f1, l2) = (states[0].liquid().molefracs[0], s2[s2.len() - 1].liquid().molefracs[1]);
+                    obs.close("mirror: first state of one diagram is the last state of the other", f1, l2, 0.0, 1e-9);
+                }
+            }
+            Err(_) => obs.class("mirror diagram Err"),
+        }
+    }
+    if compared >= 1 {
+        obs.nontrivial();
+    }
+}
+
+// ---------------------------------------------------------------------------------------
+// Part G: bubble_point_line / dew_point_line
+// ---------------------------------------------------------------------------------------
+#[derive(Serialize, Deserialize, Clone, Debug)]
+pub struct LCase {
+    pub spec: ModelSpec,
+    pub x: Vec<f64>,
+    pub bubble: bool,
+    pub npoints: usize,
+    /// min_temperature / critical temperature of the mixture
+    pub tmin_r: f64,
+    pub opt: BdOpt,
+}
+
+fn decode_line(g: &mut Gen) -> LCase {
+    let spec = gen_hc_mixture(g, 2);
+    let x = g.simplex(2, 0.05);
+    let bubble = !g.bool(0.5);
+    let npoints = g.int(6, 24) as usize;
+    let tmin_r = g.range(0.5, 0.9);
+    LCase { spec, x, bubble, npoints, tmin_r, opt: gen_bdopt(g, true) }
+}
+
+fn check_line(case: &LCase, obs: &mut Obs) {
+    let spec = &case.spec;
+    mix_classes(obs, spec);
+    obs.class(if case.bubble { "bubble_point_line" } else { "dew_point_line" });
+    obs.class(if case.opt == BdOpt::DEFAULT { "options:default" } else { "options:non-default" });
+    let Ok(model) = spec.build() else {
+        obs.discard("build");
+        return;
+    };
+    let x = Array1::from_vec(case.x.clone());
+    let moles = Moles::from_reduced(x.clone());
+    let Ok(cp) = State::critical_point(&model, Some(&moles), None, SolverOptions::default()) else {
+        obs.discard("no mixture critical point");
+        return;
+    };
+    let tc = cp.temperature;
+    let tmin = case.tmin_r * tc;
+    let o = case.opt.solver();
+    let tol = TOL * case.opt.factor();
+    let n = case.npoints;
+    let dia = std::panic::catch_unwind(std::panic::AssertUnwindSafe(|| {
+        if case.bubble {
+            PhaseDiagram::bubble_point_line(&model, &moles, tmin, n, None, o)
+        } else {
+            PhaseDiagram::dew_point_line(&model, &moles, tmin, n, None, o)
+        }
+    }));
+    let dia = match dia {
+        Ok(d) => d,
+        Err(e) => {
+            let m = e.downcast_ref::<String>().cloned().or_else(|| e.downcast_ref::<&str>().map(|s| s.to_string())).unwrap_or_default();
+            // Known finding C12/dew-line-panics-after-failed-point. Signature: dew_point_line
+            // panics with the message of the missing initial temperature.
+            if !case.bubble && m.contains("An initial temperature is required") {
+                obs.class("dew_point_line panics after a failed pressure point");
+                obs.known_or_fail("C12/dew-line-panics-after-failed-point", format!("PhaseDiagram::dew_point_line(npoints = {n}) panics: {m}"));
+            } else {
+                obs.fail(format!("PANIC in a phase-diagram line: {m}"));
+            }
+            return;
+        }
+    };
+    let Ok(dia) = dia else {
+        obs.discard("line Err");
+        return;
+    };
+    // temperature grid of the T-specified part
+    let n_t = if case.bubble { n } else { n / 2 };
+    let tmax = tmin + (tc - tmin) * ((n_t - 2) as f64 / (n_t - 1) as f64);
+    let grid = Temperature::linspace(tmin, tmax, n_t - 1);
+    let states = &dia.states;
+    let mut k = 0usize;
+    let mut compared = 0;
+    let mut prev_present = true;
+    let mut missing = 0;
+    for i in 0..n_t - 1 {
+        let ti = grid.get(i);
+        let present = k + 1 < states.len() && rel(states[k].vapor().temperature.to_reduced(), ti.to_reduced()) < 1e-12;
+        if present && ti.to_reduced() > 0.95 * tc.to_reduced() {
+            // above 0.95 of the mixture critical temperature the solves are ill-conditioned and
+            // return spurious solutions on both paths (outside C05's domain): counted only
+            obs.class("line point above 0.95 Tc,mix not compared");
+            k += 1;
+        } else if present {
+            let alone = bd(&model, case.bubble, Some(ti), None, &x, None, o, true);
+            match alone {
+                Ok(a) => {
+                    // (a fixed composition below its critical temperature has one bubble and one
+                    // dew pressure: unique per call, but see `cmp_mix` for the exchange)
+                    if cmp_mix(obs, "lines", &format!("line point {i} of {n} vs stand-alone point"), &states[k], &a, tol, false, true) {
+                        compared += 1;
+                        if !prev_present {
+                            obs.class("point after a failing neighbour compared");
+                        }
+                        if i >= 1 {
+                            obs.nontrivial();
+                        }
+                    }
+                }
+                Err(_) => obs.class("stand-alone point fails where the line has a state"),
+            }
+            k += 1;
+        } else {
+            missing += 1;
+        }
+        prev_present = present;
+    }
+    obs.class(if missing == 0 { "T-part complete" } else { "T-part with failed points" });
+    // every state of the temperature-specified part sits at a grid temperature (a stale previous
+    // result pushed again after a failure would not); the bubble line has no other states
+    if case.bubble {
+        obs.ensure(k + 1 == states.len(), || format!("bubble_point_line: {} state(s) are not at the grid temperatures (or out of order)", states.len() - 1 - k));
+    } else {
+        // pressure-specified part: strictly increasing pressures, no state repeated
+        for j in (k + 1)..states.len().saturating_sub(1) {
+            let (pa, pb) = (vle_vals(&states[j - 1]).p, vle_vals(&states[j]).p);
+            obs.ensure(j == k + 1 || pb > pa, || format!("dew_point_line: pressure-specified states {} and {j} not at increasing pressures: {pa:e}, {pb:e}", j - 1));
+        }
+    }
+    // pressure-specified part of the dew line: compare with a stand-alone solve started 2 % off
+    if !case.bubble {
+        for j in k..states.len().saturating_sub(1) {
+            let s = &states[j];
+            let p = s.vapor().pressure(Contributions::Total);
+            let alone = bd(&model, false, Some(s.vapor().temperature * if j % 2 == 0 { 1.02 } else { 0.98 }), Some(p), &x, None, o, false);
+            if let Ok(a) = alone {
+                // near the cricondentherm a vapor composition has two dew temperatures at one
+                // pressure (retrograde condensation): only the same branch is comparable
+                if cmp_mix(obs, "lines (p-part)", &format!("dew line pressure point {j} vs stand-alone point"), s, &a, 10.0 * tol, false, false) {
+                    compared += 1;
+                    obs.class("p-part compared");
+                }
+            }
+        }
+    }
+    if compared == 0 {
+        obs.class("nothing to compare");
+    }
+}
+
+// ---------------------------------------------------------------------------------------
+const PURE: PartCfg = PartCfg { name: "pure-guess", genome_len: 16, cases_quick: 8000, cases_thorough: 600_000, panic: PanicPolicy::Count };
+const STATE: PartCfg = PartCfg { name: "state-guess", genome_len: 32, cases_quick: 2500, cases_thorough: 250_000, panic: PanicPolicy::Count };
+const FLASH: PartCfg = PartCfg { name: "flash-guess", genome_len: 40, cases_quick: 2000, cases_thorough: 150_000, panic: PanicPolicy::Count };
+const BD: PartCfg = PartCfg { name: "bubble-dew-guess", genome_len: 40, cases_quick: 2500, cases_thorough: 250_000, panic: PanicPolicy::Count };
+const DPURE: PartCfg = PartCfg { name: "diagram-pure", genome_len: 16, cases_quick: 400, cases_thorough: 30_000, panic: PanicPolicy::Count };
+const DBIN: PartCfg = PartCfg { name: "diagram-binary", genome_len: 32, cases_quick: 256, cases_thorough: 12_800, panic: PanicPolicy::Count };
+const LINES: PartCfg = PartCfg { name: "lines", genome_len: 32, cases_quick: 192, cases_thorough: 9_600, panic: PanicPolicy::Count };
+
+pub fn run(ctx: &Ctx) {
+    ctx.set_rule("All parts compare a guided call with the unguided / stand-alone call on the same input. pure-guess: C04 record pool x T/Tc in the success range x guess = converged equilibrium at T' with |T'-T| <= 0.3 Tc x options x T- or p-specification. state-guess: 1-2 hydrocarbon PC-SAFT components x T/Tc_max in [0.5,2] x target density (log-uniform 1e-4..0.1 and uniform 0.1..0.85 of rho_max) whose pressure has exactly one root on the isotherm (600-point scan) x guess factor in [1/3,3]: new_npt with InitialDensity/Vapor/Liquid vs None; pure components above p_c additionally new_nph/new_nps/new_nvu with initial_temperature and new_nts with InitialDensity. flash-guess: 2-3 hydrocarbons (SMILES only C,H; non-polar, non-associating; Tc ratio < 1.8; k_ij in +-0.05) x T/Tc_low in [0.6,0.95] x p inside an envelope wider than 5 % x initial state = flash at (T(1+-3 %), p(1+-15 %)). bubble-dew-guess: tp_init = solution x [1/3,3], molefracs_init = solution x [1/3,3] renormalised; p-specification: two initial temperatures within +-10 %. diagram-pure: npoints 3-120, T_min/Tc in [0.3,0.9], max_iter 3-60; 25 % of the cases on records with known failing temperatures. diagram-binary: T/Tc_low in [0.6,1.25], npoints 3-40, options incl. outer max_iter 4-40, and the component-swapped model. lines: npoints 6-24, T_min/Tc_mix in [0.5,0.9]. Non-trivial: guess differs from the solution by > 10 %, or a diagram point with index >= 1 was compared. Distinct by hash of the canonical case.");
+    ctx.assume("tolerances: 2e-7 relative on T, p and 2e-7 absolute on mole fractions for Newton-converged results (bubble/dew points, density and temperature iterations; >= 100 x their tolerances 1e-9..1e-10; measured worst 7.6e-9 in 1.3e6 cases); densities from new_nts 5e-7 and from new_nph/new_nps/new_nvu 2e-6 (Newton on T with atol 1e-8 K; measured 9e-9 resp. 6e-9); a phase density follows the pressure with kappa = p/(rho dp/drho), its tolerance is tol_p x max(1, kappa); saturation pressures of pure equilibria 1e-6 (pure_t/pure_p stop on the pressure/temperature update while the densities are one Newton step behind: C04 measured residuals up to 1e-8 with the default tolerance), x10 above 0.99 Tc, x max(1, 1e5 x tol option / 1e-6) for looser solver tolerances; tp_flash densities/compositions 1e-5 x max(1, tol/1e-8) (the flash stops on |d ln K| < 1e-8 with linearly converging successive substitution; phase fraction divided by max|y-x|); bubble/dew tolerances scale with max(1, 100 x outer tolerance option / 2e-7)");
+    ctx.assume("mixtures: non-associating non-polar PC-SAFT records whose SMILES contains only C and H, T_c ratio < 1.8, |k_ij| <= 0.05, T = max(tr x lowest T_c, 0.5 x highest T_c) (below ~0.45 T_c the pure PC-SAFT models have spurious dense phases, i.e. liquid-liquid demixing of the model); line points above 0.95 T_c,mix are not compared (ill-conditioned, outside C05's domain); results with opposite density order (bubble/dew exchange) or on different branches of a closed / retrograde envelope are different equilibria of the same equations and are counted as inconclusive");
+    ctx.assume("single-root situations for the state constructors are established by the harness (sign changes of p(rho) - p on a 600-point scan of the isotherm; p >= 1e-4 in reduced units because density_iteration resolves p to 1e-12 absolutely); new_nph/new_nps/new_nvu only for pure components at p > 1.05 p_c (h, s monotone in T, one density root for every T)");
+    ctx.assume("PhaseDiagram::pure falls back to exactly the stand-alone cascade when the guided attempt fails (vle_pure.rs:39-61), so a grid temperature at which the stand-alone solve succeeds must be present; for bubble/dew lines and binary diagrams only 'both present => equal' is asserted (a guided failure has no fallback there)");
+    ctx.assume("results that are collapsed pairs (finding C04/pure-collapsed-solution) are attributed to that finding");
+    ctx.extra("hydrocarbon_records", json!(HC_POOL.len()));
+    ctx.run_sampled(&PURE, &decode_pure, &check_pure);
+    ctx.run_sampled(&STATE, &decode_state, &check_state);
+    ctx.run_sampled(&FLASH, &decode_flash, &check_flash);
+    ctx.run_sampled(&BD, &decode_bd, &check_bd);
+    ctx.run_sampled(&DPURE, &decode_dpure, &check_dpure);
+    ctx.run_sampled(&DBIN, &decode_binary, &check_binary);
+    ctx.run_sampled(&LINES, &decode_line, &check_line);
+    let w: std::collections::BTreeMap<String, f64> = WORST.lock().unwrap().clone();
+    ctx.extra("worst_ratio_to_tolerance", json!(w));
+}
+
+pub fn replay(ctx: &Ctx, part: &str, case: &Value) -> bool {
+    match part {
+        "pure-guess" => ctx.replay_case::<PCase>(case, &check_pure),
+        "state-guess" => ctx.replay_case::<GCase>(case, &check_state),
+        "flash-guess" => ctx.replay_case::<FCase>(case, &check_flash),
+        "bubble-dew-guess" => ctx.replay_case::<BCase>(case, &check_bd),
+        "diagram-pure" => ctx.replay_case::<DCase>(case, &check_dpure),
+        "diagram-binary" => ctx.replay_case::<VCase>(case, &check_binary),
+        "lines" => ctx.replay_case::<LCase>(case, &check_line),
+        _ => {
+            eprintln!("unknown part {part}");
+            false
+        }
+    }
+}
+
+#[allow(dead_code)]
+fn _unused(_: &dyn Fn() -> Array1<f64>) {
+    let _ = arr1(&[0.0]);
 }
